@@ -211,12 +211,15 @@ CLAIMS['C10'] = {
     'technique': 'Lean 4 completeness proof of the tree search (progress lemma for search_best, visiting order, lower search completeness C12) + drain-probe differential with shadow oracle',
 }
 CLAIMS['C11'] = {
-    'text': ('Theorems sync_exact / sync_boundary / sync_then_get: Tree::sync_steal succeeds iff the tree is reserved and holds at least the '
-             'minimum, takes exactly the whole counter, and succeeds at the boundary free = min; after a sync the slot holds its own plus the '
-             'tree frames.' + PART + 'the retry composition inside get_local is carried by the single-slot differential with the "fails only '
-             'when nothing is free" oracle.'),
-    'note': TB,
-    'technique': 'Lean 4 theorems about the synchronisation step + single-slot differential',
+    'text': ('Theorem single_slot_complete (end to end): in every state satisfying the upper invariant (every state of every sequential history of a '
+             'constructed allocator) in which only the caller\'s slot can hold a reservation (one class, one slot), with no offline trees and more '
+             'trees than slots, get(order 0) through the slot returns a frame whenever ANY frame is free - from the reservation, else by synchronising '
+             'with the global counter of its tree (frames freed without naming the slot), else by search_and_reserve over the other trees; no drain '
+             'needed. Built from the complete case analysis of get_local (getLocal_cases: exact results of Locals::get / Trees::sync / Locals::put) and '
+             'the counting argument that a failing get_local leaves an unreserved tree with a positive counter. Theorems sync_exact / sync_boundary / '
+             'sync_then_get: Tree::sync_steal succeeds iff the tree is reserved and holds at least the minimum (the boundary free = min of F8 included).'),
+    'note': TB + ' Holds for configurations satisfying CfgOk; depends on the C23 theorem (bv_decide axioms) through the lower search.',
+    'technique': 'Lean 4 completeness proof over the sequential semantics (program logic + exact-result lemmas) + single-slot differential',
 }
 CLAIMS['C14'] = {
     'text': ('Theorems trees_stats_partition / trees_stats_go / class_sum_addClass: for every tree table (classes < 8, counters within a tree) the '
